@@ -10,9 +10,11 @@ import (
 	"bytes"
 	"fmt"
 	"hash/crc32"
+	"io"
 	"os"
 	"path/filepath"
 	"runtime"
+	"strings"
 	"sync"
 	"sync/atomic"
 	"time"
@@ -359,6 +361,109 @@ func run(c *Ctx) {
 			c.Violate(Violation{Key: "syncwriter-overlap", Monitor: "syncwriter-nested", Desc: fmt.Sprintf("SyncWriter(SyncWriter(w)) used next to SyncWriter(w): %d overlapping calls into w, %d of 2400 writes", fw.overlaps, fw.n), Case: "app := New(SyncWriter(w)); child := app.Output(SyncWriter(SyncWriter(w) as above)); 8 goroutines alternate"})
 		}
 		c.Res.Evaluations += 2400
+	}
+	// ---- children of one shared parent, one per goroutine; parent contexts below and above the 500-byte buffer ----
+	{
+		zerolog.SetGlobalLevel(zerolog.Level(-128))
+		for _, size := range []int{10, 480, 600, 5000} {
+			mkParent := func(w io.Writer) zerolog.Logger {
+				return zerolog.New(w).With().Str("pad", strings.Repeat("p", size)).Logger()
+			}
+			const G, N = 8, 40
+			// reference: each child alone, from a parent of its own
+			want := map[string]bool{}
+			for g := 0; g < G; g++ {
+				rw := &sharedWriter{}
+				child := mkParent(rw).With().Int("g", g).Str("own", fmt.Sprintf("child-%d", g)).Logger()
+				for i := 0; i < N; i++ {
+					child.Info().Int("i", i).Msg("m")
+				}
+				for _, ln := range rw.lines {
+					want[string(ln)] = true
+				}
+			}
+			w := &sharedWriter{}
+			parent := mkParent(w)
+			var wg sync.WaitGroup
+			start := make(chan struct{})
+			for g := 0; g < G; g++ {
+				wg.Add(1)
+				go func(g int) {
+					defer wg.Done()
+					child := parent.With().Int("g", g).Str("own", fmt.Sprintf("child-%d", g)).Logger()
+					<-start // every child exists before the first one logs
+					for i := 0; i < N; i++ {
+						child.Info().Int("i", i).Msg("m")
+					}
+				}(g)
+			}
+			time.Sleep(2 * time.Millisecond)
+			close(start)
+			wg.Wait()
+			bad, seen := 0, map[string]bool{}
+			var example string
+			for _, ln := range w.lines {
+				if !want[string(ln)] || seen[string(ln)] {
+					bad++
+					if example == "" {
+						example = fmt.Sprintf("%.120q", ln[len(ln)-min(len(ln), 110):])
+					}
+				}
+				seen[string(ln)] = true
+			}
+			if bad != 0 || len(w.lines) != G*N || w.modified != 0 {
+				c.Violate(Violation{Key: "sibling-children-mixed", Monitor: "children-of-shared-parent", Desc: fmt.Sprintf("%d goroutines, each with its own child of one shared parent (parent context %d bytes): %d of %d lines differ from the same chain run alone or repeat (e.g. ...%s), %d writes, %d modified during Write", G, size, bad, G*N, example, len(w.lines), w.modified),
+					Case: map[string]interface{}{"parent_context_bytes": size, "goroutines": G, "events_each": N}})
+			}
+			c.Res.Evaluations += G * N
+		}
+		zerolog.SetGlobalLevel(zerolog.DebugLevel)
+	}
+	// ---- a ConsoleWriter in front of the shared destination: what it hands to Out stays intact until Out.Write returns ----
+	{
+		const G, N = 8, 60
+		render := func(w io.Writer, g, i int) {
+			l := zerolog.New(zerolog.ConsoleWriter{Out: w, NoColor: true, PartsExclude: []string{zerolog.TimestampFieldName}})
+			l.Info().Int("g", g).Int("i", i).Str("pad", strings.Repeat("c", (g*7+i)%90)).Msg("console")
+		}
+		want := map[string]bool{}
+		for g := 0; g < G; g++ {
+			for i := 0; i < N; i++ {
+				rw := &sharedWriter{}
+				render(rw, g, i)
+				for _, ln := range rw.lines {
+					want[string(ln)] = true
+				}
+			}
+		}
+		w := &sharedWriter{}
+		var wg sync.WaitGroup
+		for g := 0; g < G; g++ {
+			wg.Add(1)
+			go func(g int) {
+				defer wg.Done()
+				for i := 0; i < N; i++ {
+					render(w, g, i)
+				}
+			}(g)
+		}
+		wg.Wait()
+		bad, seen := 0, map[string]bool{}
+		var example string
+		for _, ln := range w.lines {
+			if !want[string(ln)] || seen[string(ln)] {
+				bad++
+				if example == "" {
+					example = fmt.Sprintf("%.140q", ln)
+				}
+			}
+			seen[string(ln)] = true
+		}
+		if bad != 0 || len(w.lines) != G*N || w.modified != 0 {
+			c.Violate(Violation{Key: "console-writer-buffer-reused-during-write", Monitor: "console-writer-concurrent", Desc: fmt.Sprintf("%d goroutines x %d events through ConsoleWriter into a destination that delays: %d lines differ from the sequential rendering or repeat (e.g. %s), %d writes, %d arguments modified before Out.Write returned", G, N, bad, example, len(w.lines), w.modified),
+				Case: map[string]interface{}{"goroutines": G, "events_each": N}})
+		}
+		c.Res.Evaluations += G * N
 	}
 	// ---- the global logger ----
 	{
